@@ -10,7 +10,7 @@ RELAX = ['rate', 'level_lo', 'level_hi', 'end_level', 'simult', 'hold', 'outside
 def families(tier):
     th = tier == 'thorough'
     fs = [('storage', fam.fam_storage(thorough=th)), ('storage_mip', fam.fam_storage_mip(thorough=th)),
-          ('storage_hold', fam.fam_storage_hold_T()), ('storage_hold_start', fam.fam_storage_hold_start()), ('storage_blocks', fam.fam_storage_blocks(thorough=th, inflow=(0, 1)))]
+          ('storage_hold', fam.fam_storage_hold_T()), ('storage_hold_start', fam.fam_storage_hold_start()), ('storage_hold_dst', fam.fam_storage_hold_dst()), ('storage_blocks', fam.fam_storage_blocks(thorough=th, inflow=(0, 1)))]
     if th:
         fs.append(('storage_T4', fam.fam_storage(T=4)))
         fs.append(('storage_T5_hold', fam.fam_storage_hold_T(T=5)))
